@@ -204,11 +204,12 @@ func vGenParts(name string, n int, L int, kinds int) []Location {
 //   6 join(3)  7 order(3)  8 complement(join(3))  9 join(complement(a),complement(b))
 //   10 order(join(2), atom)  11 join(4)  12 join(5)  13 order(5) 14 complement(order(3)) 15 order(4)
 //   16 join(complement(a),complement(join(b,c)))  17 join(complement(join(a,b)),complement(c))  18 order(complement(join(a,b)),c)
+//   19 order(order(a,b),c)  20 order(join(a,b),c)
 const (
 	vFamS1 = 6
 	vFamS2 = 11
 	vFamS3 = 16
-	vFamS4 = 19
+	vFamS4 = 21
 )
 
 func vGenFamily(name string, fam int, L int, kinds int) Location {
@@ -253,8 +254,14 @@ func vGenFamily(name string, fam int, L int, kinds int) Location {
 	case 17:
 		p := vGenParts(name, 3, L, kinds)
 		return Join(Join(p[0], p[1]).Complement(), p[2].Complement())
-	default:
+	case 18:
 		p := vGenParts(name, 3, L, kinds)
 		return Order(Join(p[0], p[1]).Complement(), p[2])
+	case 19:
+		p := vGenParts(name, 3, L, kinds)
+		return Order(Order(p[0], p[1]), p[2]) // a nested order that is not in the last position
+	default:
+		p := vGenParts(name, 3, L, kinds)
+		return Order(Join(p[0], p[1]), p[2])
 	}
 }
